@@ -183,6 +183,7 @@ variable (T Tc strict)
 
 def GoodOut (ctx : Ctx) : Out → Prop
   | .over c vt _ _ count T' mem => c = ctx ∧ overThreshold count T' (vt != .cert) = true ∧
+      (strict = true → T' = thr T Tc vt) ∧
       (vt ≠ .other → count = sumVotes mem % U32 ∧ (mem.map (·.addr)).Nodup ∧ (strict = true → ∀ e ∈ mem, e.vrf = true))
   | .commit c _ cert pc _ certs => c = ctx ∧ ∃ Tp Tq, (strict = true → Tp = T ∧ Tq = Tc) ∧
       quorum Tp true ≤ sumVotes pc % U32 ∧ (pc.map (·.addr)).Nodup ∧ (strict = true → ∀ e ∈ pc, e.vrf = true) ∧
@@ -396,7 +397,7 @@ theorem exec_res : ∀ (fuel : Nat) (v : Voter) (call : Call), Inv T Tc strict v
               simp only [hc, if_false]
               exact hI.th hs h' vt' hov
           have hgood : GoodOut T Tc strict v.ctx (Out.over v.ctx vt ch h count T' (votesOf v.ws v.ctx ch vt h)) := by
-            refine ⟨rfl, hover, fun hne => ?_⟩
+            refine ⟨rfl, hover, hC.2, fun hne => ?_⟩
             have := hI.votes v.ctx ch vt h
             exact ⟨by rw [hC.1 ch hk hne]; exact this.1, this.2.1, this.2.2⟩
           have R1 : Res T Tc strict v
